@@ -255,6 +255,10 @@ pub fn run(ctx: &Ctx, with_reader_side: bool) -> Report {
             rep.count("path_created_pairs_written_by_the_complete_Writer", 1);
         }
         let pre_finalize = i % 11 == 5;
+        let refused_between = i % 17 == 4 && nshapes >= 1;
+        if refused_between {
+            rep.count("files_with_a_refused_write_between_accepted_ones", 1);
+        }
         if pre_finalize {
             rep.count("files_with_a_finalize_before_the_first_write", 1);
         }
@@ -327,6 +331,11 @@ pub fn run(ctx: &Ctx, with_reader_side: bool) -> Report {
                             break;
                         }
                         write_one(&mut w, s)?;
+                        if refused_between && k == i % nshapes {
+                            // a shape of another type offered between two accepted ones (seeded
+                            // change C02-r10): refused, and the records stay numbered 1..n
+                            let _ = if t == 1 { w.write_shape(&PointM::new(1.0, 2.0, 3.0)).is_err() } else { w.write_shape(&Point::new(1.0, 2.0)).is_err() };
+                        }
                         if mid_finalize == Some(k + 1) {
                             w.finalize()?;
                         }
@@ -356,6 +365,11 @@ pub fn run(ctx: &Ctx, with_reader_side: bool) -> Report {
                             break;
                         }
                         write_one(&mut w, s)?;
+                        if refused_between && k == i % nshapes {
+                            // a shape of another type offered between two accepted ones (seeded
+                            // change C02-r10): refused, and the records stay numbered 1..n
+                            let _ = if t == 1 { w.write_shape(&PointM::new(1.0, 2.0, 3.0)).is_err() } else { w.write_shape(&Point::new(1.0, 2.0)).is_err() };
+                        }
                         if mid_finalize == Some(k + 1) {
                             w.finalize()?;
                             if i % 10 == 2 {
